@@ -13,7 +13,7 @@ PID = "C16"
 RULE = (
     "all fields with values in a 3-letter alphabet (2-letter for the larger shapes) on the declared shapes, zero field excluded; "
     "for every field: reference DFT, Parseval, k-grid for every spacing/origin of the menu, 3 scalings, all cyclic shifts, all axis "
-    "reflections, all axis permutations, smoothed variant at requested wave numbers with and without zero mode; "
+    "reflections, all axis permutations, smoothed variant at requested wave numbers (seven request forms: generic, starting at 0, single value, descending, tuple, array) with and without zero mode; "
     "non-trivial = field is not constant"
     "; the analysed field object must stay unmodified and give the same answer again; grid-sequence histories (2-3 grids of equal shape, every order, fresh fork)"
 )
@@ -315,6 +315,15 @@ def run_case(case, ctx):
         kz, Sz = gsf(ScalarField(g0, f), smoothing=smoothing, wave_numbers=wn, add_zero=True)
         ctx.op()
         ctx.check("C16.add-zero", len(kz) == 4 and kz[0] == 0 and Sz[0] == 1 and np.array_equal(kz[1:], wn) and np.allclose(Sz[1:], Ssm, rtol=1e-12, atol=0), {"kz": kz, "Sz": Sz})
+        # other forms of the request: starting at zero, a single value, descending order, tuple / array containers
+        for wn2 in ([0.0, kmin, 3 * kmin], [kmin], [2 * kmin, kmin], (0.0, 0.5 * kmin), np.array([0.0]), np.linspace(0, 2 * kmin, 5)):
+            k2_, S2_ = gsf(ScalarField(g0, f), smoothing=smoothing, wave_numbers=wn2)
+            kz2, Sz2 = gsf(ScalarField(g0, f), smoothing=smoothing, wave_numbers=wn2, add_zero=True)
+            ctx.op(2)
+            ctx.count("requests-starting-at-zero" if wn2[0] == 0 else "other-request-forms")
+            det = {"requested": np.asarray(wn2), "k": k2_, "S": S2_, "k_add_zero": kz2, "S_add_zero": Sz2}
+            ctx.check("C16.smooth-k", np.array_equal(np.asarray(k2_), np.asarray(wn2, float)) and np.shape(S2_) == (len(wn2),) and bool(np.all(np.isfinite(S2_))), det)
+            ctx.check("C16.add-zero", len(kz2) == len(wn2) + 1 and kz2[0] == 0 and Sz2[0] == 1 and np.array_equal(kz2[1:], np.asarray(wn2, float)) and np.allclose(Sz2[1:], S2_, rtol=1e-12, atol=0), det)
         for c_ in (-3.0, 1e-7):
             _, Sc = gsf(ScalarField(g0, c_ * f), smoothing=smoothing, wave_numbers=wn)
             ctx.op()
@@ -346,4 +355,4 @@ def run_case(case, ctx):
 
 def expected_positive(tier):
     return ["C16.nonneg", "C16.parseval", "C16.dft-definition", "C16.k-grid", "C16.k-scaling", "C16.scale", "C16.shift", "C16.reflect",
-            "C16.reflect-multiset", "C16.permute", "C16.add-zero", "C16.smooth-k", "C16.smooth-invariance", "C16.input-unmodified", "non-constant-field", "grid-sequences", "same-grid-object-sequences"]
+            "C16.reflect-multiset", "C16.permute", "C16.add-zero", "C16.smooth-k", "C16.smooth-invariance", "C16.input-unmodified", "non-constant-field", "grid-sequences", "same-grid-object-sequences", "requests-starting-at-zero", "other-request-forms"]
